@@ -87,7 +87,8 @@ def _shapes(tier, prop=None):
     q += [dict(spec="line4", modes=["min"], sample_only=True, sample_factor=12, sample_part=i) for i in range(4)]
     q += [dict(spec="rand5", modes=["min"], sample_only=True, sample_factor=6, sample_part=6, unary=False, costkinds=["plain"], inst_to=60),
           dict(spec="rand5", modes=["max"], sample_only=True, sample_factor=4, sample_part=7, unary=False, costkinds=["plain"], connected=False, max_dom=2),
-          dict(spec="rand6", modes=["min"], sample_only=True, sample_factor=4, sample_part=8, unary=False, costkinds=["plain"], max_dom=2, inst_to=60)]
+          dict(spec="rand6", modes=["min"], sample_only=True, sample_factor=4, sample_part=8, unary=False, costkinds=["plain"], max_dom=2, inst_to=60),
+          dict(spec="rand5", modes=["min"], sample_only=True, sample_factor=4, sample_part=9, unary=False, costkinds=["plain"], same_dom=True)]
     q += [dict(spec="chain4", modes=["min"], sample_only=True, sample_factor=12, sample_part=4),
           dict(spec="line4", modes=["max"], sample_only=True, sample_factor=12, sample_part=5)]
     if prop == "C10" and tier == "quick":
